@@ -2099,6 +2099,8 @@ class Interp(object):
                 q = self.opaque_op(st, 'udiv', bits, la, lb, rng)
                 if not lb.t and lb.c > 0:
                     self.divmod_facts(st, la, lb.c, bits)
+                elif lb.t and isinstance(q, IntV) and q.lin.t:
+                    st.assume_ge0(la - q.lin)       # a / b <= a for every divisor the division is defined for (b >= 1)
                 return q
             rng = (0, min(ahi, (bhi - 1) if bhi < INF else M - 1, M - 1))
             if rng[1] < 0:
